@@ -70,8 +70,7 @@ exit 2 ("analysis broken") instead: they delete the construct a rule is anchored
 pass (`r1-C02-1`; `r2-C09-3` for C10-CACHEKEY).
 
 Not reported, and why: `r1-C02-1` (rounding smear
-replaced by a `get_dist_slot()` expression: exit 2), `r2-C06-2` (BCJ wrapper calls the next coder after its end: needs
-the relation "end_was_reached implies pending data at the next entry" between runtime values), `r3-C14-3` (a new
+replaced by a `get_dist_slot()` expression: exit 2), `r3-C14-3` (a new
 alignment fast path in the CLMUL CRC: deciding it means interpreting carry-less-multiplication folding over 128-bit
 lanes for every alignment, i.e. symbolic execution).
 
